@@ -6,7 +6,6 @@ CLAUSES = {
     2: "a recipient was handed to targets other than those of the block the documented precedence selects, or refused with another reply",
     3: "a configuration was loaded although some recipient block neither delivers, reroutes nor rejects",
     4: "a respelling (letter case, NFC/NFD, A-label/U-label) of the envelope addresses changed the targets reached or the replies",
-    105: "an address or rule with an upper-case ACE prefix (XN--...) is routed differently from its other spellings (the C17 finding: idna.ToUnicode matches the prefix case-sensitively)",
 }
 TRUSTED = [
     "Coq 8.16.1 kernel (coqc); vm_compute",
